@@ -185,3 +185,29 @@ func TestRegCloseReturnsError(t *testing.T) {
 		}
 	}
 }
+
+// seeded change C19-a2: removeStream ran the WithStreamCloseHook callback while holding the
+// pool mutex. A parked hook then blocks every pool call for any peer; a hook that calls back
+// into the pool deadlocks on itself.
+func TestRegCloseHookOutsideLock(t *testing.T) {
+	for hook := hookInstant; hook <= hookParkReenter; hook++ {
+		for _, end := range []Op{{Kind: opClose, A: 0, Pace: true}, {Kind: opRecvErr, A: 0, Pace: true}, {Kind: opBroadcast, Tags: []int{1}, N: 1, Pace: true}} {
+			one(t, Case{
+				Peers: peersOK(2),
+				Streams: []StreamSpec{
+					{Gate: gateHealthy, Peer: 0, Queue: 2, Tags: []int{0, 1}, FailSendAt: 1, Incoming: hook%2 == 0},
+					{Gate: gateHealthy, Peer: 1, Queue: 2, Tags: []int{0}},
+				},
+				Initial: 2, Workers: 1, DialQueue: 2, Hook: hook,
+				Ops: []Op{
+					end, // stream 0 ends; its hook may stay parked through the next burst
+					{Kind: opBroadcast, Tags: []int{0}, N: 2},
+					{Kind: opSendById, Peers: []int{1}, N: 1},
+					{Kind: opAddTags, A: 1, Tags: []int{2}},
+					{Kind: opSend, Peers: []int{1}, N: 1, Pace: true},
+					{Kind: opBroadcast, Tags: []int{2}, N: 1, Pace: true},
+				},
+			})
+		}
+	}
+}
